@@ -457,33 +457,3 @@ def _r_c19_bn(f):
     a = rdflib.Graph().parse(data="_:b <http://e/p> <http://e/o> .", format="nt")
     b = rdflib.Graph().parse(data="_:b <http://e/p> <http://e/o> .", format="nt")
     return str(next(iter(a))[0]) != str(next(iter(b))[0])
-
-
-# ------------------------------------------------------------------ C15
-def _local(iri):
-    for sep in "#/":
-        if sep in iri and not iri.endswith(sep):
-            return iri[iri.rfind(sep) + 1:]
-    return iri
-
-
-@trigger("endpoint_same_local_name")
-def _t_c15_local(f, obs):
-    if obs.get("kind") != "endpoint" or not obs.get("why", "").startswith("shapes differ"):
-        return False
-    classes = {o[1] for s, p, o in obs.get("triples", []) if p == obs["cfg"]["inst_prop"] and o[0] == 'I'}
-    if obs["cfg"]["target_mode"] == "classes":
-        classes &= set(obs["cfg"]["targets"])
-    names = [_local(c) for c in classes]
-    return len(names) != len(set(names))
-
-
-@replayer("endpoint_same_local_name")
-def _r_c15_local(f):
-    import fake_endpoint as FE
-    from shexer.shaper import Shaper
-    T = "http://www.w3.org/1999/02/22-rdf-syntax-ns#type"
-    nt = "<http://example.org/a> <%s> <http://example.org/C0> .\n<http://example.org/b> <%s> <http://other.org/ns#C0> .\n" % (T, T)
-    with FE.serving(nt):
-        t = Shaper(url_endpoint=FE.URL, all_classes_mode=True).shex_graph(string_output=True)
-    return t.count(":C0") < 2
